@@ -38,6 +38,7 @@ import (
 	"github.com/tidwall/tile38/internal/endpoint"
 	"github.com/tidwall/tile38/internal/log"
 	"github.com/tidwall/tile38/internal/object"
+	"github.com/tidwall/tile38/internal/verifhook"
 	"github.com/tidwall/tile38/internal/viewer"
 )
 
@@ -719,7 +720,9 @@ func (s *Server) netServe() error {
 								var rwc io.ReadWriteCloser = conn
 								client.conn = rwc
 								if len(client.out) > 0 {
+									verifhook.Point(s.dir, "pre-write", client.id)
 									s.prewriteAOF()
+									verifhook.Point(s.dir, "before-conn-write", client.id)
 									client.conn.Write(client.out)
 									client.out = nil
 								}
@@ -772,7 +775,9 @@ func (s *Server) netServe() error {
 
 				// write to client
 				if len(client.out) > 0 {
+					verifhook.Point(s.dir, "pre-write", client.id)
 					s.prewriteAOF()
+					verifhook.Point(s.dir, "before-conn-write", client.id)
 					conn.Write(client.out)
 					client.out = nil
 				}
@@ -806,12 +811,14 @@ func (s *Server) netServe() error {
 // sets the flag again and performs its own flush before being acknowledged.
 func (s *Server) prewriteAOF() {
 	if s.aofdirty.Load() {
+		verifhook.Point(s.dir, "dirty-seen", 0)
 		func() {
 			s.mu.Lock()
 			defer s.mu.Unlock()
 			s.aofdirty.Store(false)
 			s.flushAOF(false)
 		}()
+		verifhook.Point(s.dir, "flushed", 0)
 	}
 }
 
@@ -1331,6 +1338,9 @@ func (s *Server) reset() {
 func (s *Server) command(msg *Message, client *Client) (
 	res resp.Value, d commandDetails, err error,
 ) {
+	if vres, verr, ok := s.verifCommand(msg); ok {
+		return vres, d, verr
+	}
 	switch msg.Command() {
 	default:
 		err = fmt.Errorf("unknown command '%s'", msg.Args[0])
